@@ -816,7 +816,7 @@ def gen_same_session_program(rng):
         second = 1
     p.generated = {g: (None, 0)}
     steps = [['E', '0', str(rng.randint(0, 3))], ['E', str(g), '5'], ['Z', '2', 'q', '0', 'q', str(second)]]
-    return p, steps, {'impl_only': True}
+    return p, steps, {}
 
 
 def gen_same_abort_program(rng):
